@@ -228,6 +228,26 @@ Theorem c02_necessity_exact_id : permits_wrapping no_exact doc_case_id.
 Proof. exact necessity_exact_id. Qed.
 Print Assumptions c02_necessity_exact_id.
 
+(* (round 6) the issuer test of _assertion must be an EQUALITY of the two names: with a substring test (`not in`), in a
+   federation with nested entityIDs (ExN: the staff IdP's entityID is the leading part of the guest IdP's), a message
+   genuinely signed by the guest IdP whose unsigned envelope is rewritten to the staff IdP's name - or to a fragment of the
+   signed name - is accepted and reported under a name no covered element carries; the code as it is refuses both, also a
+   capitalised and a longer spelling, and accepts the unedited message (reporting the signed name) *)
+Theorem c02_necessity_exact_issuer :
+  (exists rep ds, ExN.run no_isseq ExN.doc_nested = Some (rep, ds)
+                  /\ sig_required ExN.cfgG
+                  /\ r_issuer rep = Ex.IDP /\ r_name_id rep = Some ("admin"%string, None)
+                  /\ spec_but_issuer ExN.cfgG (cov_of ExN.doc_nested None ds) rep
+                  /\ ~ spec_issuer ExN.cfgG (cov_of ExN.doc_nested None ds) rep)
+  /\ (exists rep ds, ExN.run no_isseq ExN.doc_fragment = Some (rep, ds)
+                     /\ ~ spec_issuer ExN.cfgG (cov_of ExN.doc_fragment None ds) rep)
+  /\ ExN.run as_coded ExN.doc_nested = None /\ ExN.run as_coded ExN.doc_fragment = None
+  /\ ExN.run as_coded ExN.doc_upper = None /\ ExN.run as_coded ExN.doc_longer = None
+  /\ (exists rep ds, ExN.run as_coded ExN.doc_unedited = Some (rep, ds) /\ r_issuer rep = ExN.GUEST
+                     /\ spec ExN.cfgG (cov_of ExN.doc_unedited None ds) rep).
+Proof. exact necessity_exact_issuer. Qed.
+Print Assumptions c02_necessity_exact_issuer.
+
 (* the engine guard of c02_v1_covered is satisfiable and the genuine message is accepted with alice's identity under all six engines *)
 Theorem c02_engines_nonvacuous :
   (forall E, engine_guard E Ex.doc_genuine None)
